@@ -1,13 +1,16 @@
 /-
-  QKV.Model.Parse — qkeras/safe_eval.py transcribed over `List Char`:
+  QKV.Model.Parse — qkeras/safe_eval.py (after the fix round: blanks after a keyword value are
+  stripped, bracketed number lists `[1,2]` are one token, a repeated keyword is a SyntaxError)
+  transcribed over `List Char`:
   `safe_eval` (split at "(", name lookup, call), `GetParams` (the pyparsing grammar
-  `"(" [ item ("," item)* ] ")"`, item = `[^=,)\s]+` optionally followed by `=` and `[^,)]*`,
-  whitespace skipped before every token, then the positional-after-keyword SyntaxError),
-  `GetArg` and its helpers `IsBool/Bool/IsNum/Num/IsNone/IsListofNums/ListofNums/Str`.
+  `"(" [ item ("," item)* ] ")"`, item = `(?:L|[^=,)\s])+` optionally followed by `=` and
+  `(?:L|[^,)])*` with `L = \[[0-9eE+\-.,\s]*\]`, whitespace skipped before every token, then the
+  positional-after-keyword and repeated-keyword SyntaxErrors),
+  `GetArg` and its helpers `IsBool/Bool/IsNum/Num/IsNone/_ListItems/IsListofNums/ListofNums/Str`.
 
   pyparsing itself is a library: its matching of this grammar is modelled by cutting the text
-  at the first `)` into comma-separated segments (no token of the grammar can contain `,` or
-  `)`) and matching one item per segment; the equivalence on malformed inputs is exercised by
+  at the first `)` outside a bracketed list into segments at the commas outside a bracketed
+  list and matching one item per segment; the equivalence on malformed inputs is exercised by
   the tie's malformed stream.  Also here: the literal syntax tree `Lit` of Python literals with
   its text and its Python value (the reference reading), and `render`.
   Core Lean only.
@@ -104,13 +107,33 @@ def splitOnChar (sep : Char) : List Char → List (List Char)
 
 def removeBrackets (s : List Char) : List Char := s.filter fun c => !(c == '[' || c == ']')
 
-/-- `IsListofNums` -/
+/-- `str.split(...)` at every character satisfying `p` (always at least one piece) -/
+def splitOnP (p : Char → Bool) : List Char → List (List Char)
+  | [] => [[]]
+  | c :: cs =>
+    if p c then [] :: splitOnP p cs
+    else match splitOnP p cs with
+      | [] => [[c]]
+      | h :: t => (c :: h) :: t
+
+/-- separators of `_ListItems`: a comma (replaced by a blank) or `str.split()` whitespace -/
+def isItemSep (c : Char) : Bool := c == ',' || isReSpace c
+
+/-- `_ListItems`: brackets removed, `s.replace(",", " ").split()` — the nonempty pieces
+    between runs of commas and whitespace -/
+def listItems (s : List Char) : List (List Char) :=
+  (splitOnP isItemSep (removeBrackets s)).filter fun e => !e.isEmpty
+
+/-- `s.startswith("[") and s.endswith("]")` -/
+def isBracketed (s : List Char) : Bool := s.head? == some '[' && s.getLast? == some ']'
+
+/-- `IsListofNums`: more than one item, or a bracketed text of any length; all items numbers -/
 def isListOfNums (s : List Char) : Bool :=
-  let l := splitOnChar ' ' (removeBrackets s)
-  1 < l.length && l.all fun e => (pyNum e).isSome
+  let l := listItems s
+  (1 < l.length || isBracketed s) && l.all fun e => (pyNum e).isSome
 
 /-- `ListofNums` -/
-def listOfNums (s : List Char) : List Num := (splitOnChar ' ' (removeBrackets s)).filterMap pyNum
+def listOfNums (s : List Char) : List Num := (listItems s).filterMap pyNum
 
 /-- `GetArg`: bool, number, None, space-separated number list, otherwise `s[1:-1]` -/
 def getArg (s : List Char) : PyVal :=
@@ -130,25 +153,53 @@ inductive Item where
   | kw (k v : List Char)
   deriving DecidableEq, Repr
 
-/-- text up to the first `)` cut at commas; `none` when there is no `)` -/
-def splitBody : List Char → Option (List (List Char))
-  | [] => none
-  | c :: cs =>
-    if c == ')' then some [[]]
-    else match splitBody cs with
-      | none => none
-      | some [] => none
-      | some (seg :: segs) => if c == ',' then some ([] :: seg :: segs) else some ((c :: seg) :: segs)
+/-- `[0-9eE+\-.,\s]`: what may stand between the brackets of a number list -/
+def numListChar (c : Char) : Bool :=
+  isDig c || c == 'e' || c == 'E' || c == '+' || c == '-' || c == '.' || c == ',' || isReSpace c
 
-/-- one `Group(Regex("[^=,)\s]+") + Optional("=" + Regex("[^,)]*")))` with whitespace skipping -/
+/-- the text after a `[` completes the pattern `\[[0-9eE+\-.,\s]*\]` -/
+def closesList (t : List Char) : Bool := (t.dropWhile numListChar).head? == some ']'
+
+/-- greedy match of `(?:\[[0-9eE+\-.,\s]*\]|<class p>)*` at the head of the text:
+    `(matched, rest)`.  First argument: inside a bracketed list (whose `]` is known to follow). -/
+def scanTok (p : Char → Bool) : Bool → List Char → List Char × List Char
+  | _, [] => ([], [])
+  | true, c :: t => let r := scanTok p (c != ']') t; (c :: r.1, r.2)
+  | false, c :: t =>
+    if c == '[' && closesList t then let r := scanTok p true t; (c :: r.1, r.2)
+    else if p c then let r := scanTok p false t; (c :: r.1, r.2)
+    else ([], c :: t)
+
+/-- prepend a character to the first segment -/
+def consSeg (c : Char) : Option (List (List Char)) → Option (List (List Char))
+  | some (seg :: segs) => some ((c :: seg) :: segs)
+  | _ => none
+
+/-- a comma opens a new segment, any other character joins the first segment -/
+def stepSeg (c : Char) : Option (List (List Char)) → Option (List (List Char))
+  | some (seg :: segs) => if c == ',' then some ([] :: seg :: segs) else some ((c :: seg) :: segs)
+  | _ => none
+
+/-- text up to the first `)` cut at commas, both outside a bracketed number list;
+    `none` when there is no such `)`.  First argument: inside a bracketed list. -/
+def splitBody : Bool → List Char → Option (List (List Char))
+  | _, [] => none
+  | true, c :: cs => consSeg c (splitBody (c != ']') cs)
+  | false, c :: cs =>
+    if c == '[' && closesList cs then consSeg c (splitBody true cs)
+    else if c == ')' then some [[]]
+    else stepSeg c (splitBody false cs)
+
+/-- one `Group(Regex("(?:L|[^=,)\s])+") + Optional("=" + Regex("(?:L|[^,)])*")))` with whitespace
+    skipping (inside a segment the value pattern runs to the end of the segment) -/
 def parseSeg (seg : List Char) : Option Item :=
   let s1 := seg.dropWhile isWs
-  let key := s1.takeWhile keyChar
-  let r1 := (s1.dropWhile keyChar).dropWhile isWs
-  if key.isEmpty then none
+  let kr := scanTok keyChar false s1
+  let r1 := kr.2.dropWhile isWs
+  if kr.1.isEmpty then none
   else match r1 with
-    | [] => some (.pos key)
-    | c :: v => if c == '=' then some (.kw key (v.dropWhile isWs)) else none
+    | [] => some (.pos kr.1)
+    | c :: v => if c == '=' then some (.kw kr.1 (v.dropWhile isWs)) else none
 
 def mapOpt {α β : Type} (f : α → Option β) : List α → Option (List β)
   | [] => some []
@@ -158,7 +209,7 @@ def mapOpt {α β : Type} (f : α → Option β) : List α → Option (List β)
 
 /-- `data.parseString(s).asList()` on the text after the opening parenthesis -/
 def parseItems (body : List Char) : Except Err (List Item) :=
-  match splitBody body with
+  match splitBody false body with
   | none => .error .parseException
   | some segs =>
     if segs.length == 1 && segs.all (fun s => s.all isWs) then .ok []
@@ -175,7 +226,8 @@ def badOrder : List Item → Bool
      | .kw _ _, .pos _ => true
      | _, _ => false) || badOrder (b :: rest)
 
-/-- Python dict insertion: a repeated key keeps its first position and takes the last value -/
+/-- Python dict insertion: a repeated key keeps its first position and takes the last value
+    (a repeated keyword is rejected afterwards, see `hasDup`) -/
 def dictInsert (d : Env) (k : String) (v : PyVal) : Env :=
   if d.keys.contains k then d.set k v else d ++ [(k, v)]
 
@@ -184,10 +236,22 @@ def itemArgs : List Item → List PyVal
   | .pos k :: t => getArg k :: itemArgs t
   | .kw _ _ :: t => itemArgs t
 
+/-- `{i[0]: GetArg(i[1].strip()) …}` -/
 def itemKwargs (d : Env) : List Item → Env
   | [] => d
   | .pos _ :: t => itemKwargs d t
-  | .kw k v :: t => itemKwargs (dictInsert d (String.ofList k) (getArg v)) t
+  | .kw k v :: t => itemKwargs (dictInsert d (String.ofList k) (getArg (stripWs v))) t
+
+/-- the keywords in order of appearance -/
+def itemKeys : List Item → List (List Char)
+  | [] => []
+  | .pos _ :: t => itemKeys t
+  | .kw k _ :: t => k :: itemKeys t
+
+/-- `keywords.count(k) > 1` for some keyword -/
+def hasDup : List (List Char) → Bool
+  | [] => false
+  | k :: t => t.contains k || hasDup t
 
 /-- `str.expandtabs()` from a given column: pyparsing's `parseString` expands tabs before it
     matches anything (tab stops every 8 columns, the column restarts after a line break) -/
@@ -204,6 +268,7 @@ def getParams (body : List Char) : Except Err (List PyVal × Env) :=
   | .error e => .error e
   | .ok items =>
     if badOrder items then .error .syntaxError
+    else if hasDup (itemKeys items) then .error .syntaxError
     else .ok (itemArgs items, itemKwargs [] items)
 
 /-- what `safe_eval` extracts from the text before it calls anything -/
@@ -238,7 +303,14 @@ def safeEval (s : List Char) : Except Err Q :=
 
 /-! ### the literal grammar: syntax tree, text, Python value -/
 
-/-- Python literals of the property's grammar.  Digits are characters `'0'..'9'`. -/
+/-- number literals (the elements of a list literal).  Digits are characters `'0'..'9'`. -/
+inductive NumLit where
+  | int (neg : Bool) (ds : List Char)
+  /-- `[-] ip . fp [e [-] ex]` -/
+  | float (neg : Bool) (ip fp : List Char) (ex : Option (Bool × List Char))
+  deriving DecidableEq, Repr
+
+/-- Python literals of the property's grammar. -/
 inductive Lit where
   | none
   | bool (b : Bool)
@@ -247,7 +319,18 @@ inductive Lit where
   | float (neg : Bool) (ip fp : List Char) (ex : Option (Bool × List Char))
   /-- quoted string; `dq` = double quotes -/
   | str (dq : Bool) (cs : List Char)
+  /-- list of numbers `[a,b,…]` -/
+  | list (ns : List NumLit)
   deriving DecidableEq, Repr
+
+def NumLit.toLit : NumLit → Lit
+  | .int neg ds => .int neg ds
+  | .float neg ip fp ex => .float neg ip fp ex
+
+def joinComma : List (List Char) → List Char
+  | [] => []
+  | [a] => a
+  | a :: b :: t => a ++ ',' :: joinComma (b :: t)
 
 def signText (neg : Bool) : List Char := if neg then ['-'] else []
 
@@ -257,6 +340,10 @@ def expText : Option (Bool × List Char) → List Char
 
 def quoteChar (dq : Bool) : Char := if dq then '"' else '\''
 
+def NumLit.text : NumLit → List Char
+  | .int neg ds => signText neg ++ ds
+  | .float neg ip fp ex => signText neg ++ (ip ++ '.' :: (fp ++ expText ex))
+
 def Lit.text : Lit → List Char
   | .none => "None".toList
   | .bool true => "True".toList
@@ -264,37 +351,69 @@ def Lit.text : Lit → List Char
   | .int neg ds => signText neg ++ ds
   | .float neg ip fp ex => signText neg ++ (ip ++ '.' :: (fp ++ expText ex))
   | .str dq cs => quoteChar dq :: (cs ++ [quoteChar dq])
+  | .list ns => '[' :: (joinComma (ns.map NumLit.text) ++ [']'])
 
 def signed (neg : Bool) (n : Nat) : Int := if neg then -(n : Int) else (n : Int)
+
+/-- the exact decimal value of `[-] ip . fp [e [-] ex]` -/
+def floatVal (neg : Bool) (ip fp : List Char) (ex : Option (Bool × List Char)) : Rat :=
+  let e : Int := match ex with
+    | Option.none => 0
+    | some (eneg, ds) => signed eneg (digitsVal ds)
+  let v : Rat := ((digitsVal ip : Nat) + (digitsVal fp : Nat) / ((10 ^ fp.length : Nat) : Rat)) * pow10z e
+  if neg then -v else v
+
+/-- Python's reading of a number literal -/
+def NumLit.num : NumLit → Num
+  | .int neg ds => .int (signed neg (digitsVal ds))
+  | .float neg ip fp ex => .float (floatVal neg ip fp ex)
 
 /-- Python's own reading of the literal (floats: the exact decimal value) -/
 def Lit.val : Lit → PyVal
   | .none => .none
   | .bool b => .bool b
   | .int neg ds => .int (signed neg (digitsVal ds))
-  | .float neg ip fp ex =>
-    let e : Int := match ex with
-      | Option.none => 0
-      | some (eneg, ds) => signed eneg (digitsVal ds)
-    let v : Rat := ((digitsVal ip : Nat) + (digitsVal fp : Nat) / ((10 ^ fp.length : Nat) : Rat)) * pow10z e
-    .float (if neg then -v else v)
+  | .float neg ip fp ex => .float (floatVal neg ip fp ex)
   | .str _ cs => .str (String.ofList cs)
+  | .list ns => .list (ns.map NumLit.num)
 
 /-- characters allowed inside a quoted string of the grammar -/
 def strChar (c : Char) : Bool :=
   keyChar c && !(c == '(' || c == '\'' || c == '"' || c == '\\')
 
-/-- well-formed literal (Python accepts the text and reads it as `val`) -/
-def Lit.wf : Lit → Bool
-  | .none => true
-  | .bool _ => true
-  | .int _ ds => allDigits ds && (ds.length == 1 || ds.head? != some '0')
+/-- readable number literal: nonempty digit strings (leading zeros allowed: `int("08")` is 8) -/
+def NumLit.rd : NumLit → Bool
+  | .int _ ds => allDigits ds
   | .float _ ip fp ex =>
-    allDigits ip && allDigits fp && (ip.length == 1 || ip.head? != some '0') &&
+    allDigits ip && allDigits fp &&
       (match ex with
        | Option.none => true
        | some (_, ds) => allDigits ds)
+
+/-- Python rejects a leading zero in a decimal integer (part) of more than one digit -/
+def noLeadingZero (ds : List Char) : Bool := ds.length == 1 || ds.head? != some '0'
+
+def NumLit.wf : NumLit → Bool
+  | .int neg ds => (NumLit.int neg ds).rd && noLeadingZero ds
+  | .float neg ip fp ex => (NumLit.float neg ip fp ex).rd && noLeadingZero ip
+
+/-- readable literal: everything the parser lemmas need (digit strings nonempty, string
+    contents over the alphabet, list elements readable numbers) -/
+def Lit.rd : Lit → Bool
+  | .none => true
+  | .bool _ => true
+  | .int neg ds => (NumLit.int neg ds).rd
+  | .float neg ip fp ex => (NumLit.float neg ip fp ex).rd
   | .str _ cs => cs.all strChar
+  | .list ns => ns.all NumLit.rd
+
+/-- well-formed literal (Python accepts the text and reads it as `val`): readable, and no
+    leading zero in an integer (part) -/
+def Lit.wf : Lit → Bool
+  | .int neg ds => (NumLit.int neg ds).wf
+  | .float neg ip fp ex => (NumLit.float neg ip fp ex).wf
+  | .list ns => ns.all NumLit.wf
+  | l => l.rd
 
 /-- one argument of a call -/
 inductive Arg where
@@ -329,10 +448,9 @@ def Arg.wf : Arg → Bool
   | .pos l => l.wf
   | .kw k l => isIdent k && l.wf
 
-def joinComma : List (List Char) → List Char
-  | [] => []
-  | [a] => a
-  | a :: b :: t => a ++ ',' :: joinComma (b :: t)
+def Arg.rd : Arg → Bool
+  | .pos l => l.rd
+  | .kw k l => isIdent k && l.rd
 
 /-- the call expression `name(arg, …, k=arg, …)` -/
 def render (name : String) (as : List Arg) : List Char :=
@@ -359,11 +477,15 @@ def argBadOrder : List Arg → Bool
      | .kw _ _, .pos _ => true
      | _, _ => false) || argBadOrder (b :: rest)
 
+def Arg.isPos : Arg → Bool
+  | .pos _ => true
+  | .kw _ _ => false
+
 /-- positional argument anywhere after a keyword argument (Python's rule) -/
 def argPosAfterKw : List Arg → Bool
   | [] => false
   | .pos _ :: t => argPosAfterKw t
-  | .kw _ _ :: t => t.any (fun a => match a with | .pos _ => true | .kw _ _ => false) || argPosAfterKw t
+  | .kw _ _ :: t => t.any Arg.isPos || argPosAfterKw t
 
 /-- Python's reading of the call expression: `SyntaxError` for a positional argument after a
     keyword argument or a repeated keyword, otherwise the positional values in order and the
